@@ -190,3 +190,185 @@ impl AbiBinder {
         json!({"s": "abi"})
     }
 }
+
+// ---------------------------------------------------------------------------------------------
+// The harness's own codec for hub messages (used by the ITS binding to build inbound payloads and
+// to read announced ones).  It is a port of spec/Abi.tla and is cross-validated against TLC's
+// encodings and verdicts by the C10 check (module "AbiOwn"): it never consults the contract's codec.
+
+fn word(n: usize) -> Vec<u8> {
+    let mut w = vec![0u8; 32];
+    w[24..].copy_from_slice(&(n as u64).to_be_bytes());
+    w
+}
+fn pad_len(n: usize) -> usize {
+    (n + 31) / 32 * 32
+}
+fn enc_bytes(b: &[u8]) -> Vec<u8> {
+    let mut v = word(b.len());
+    v.extend_from_slice(b);
+    v.extend(std::iter::repeat(0u8).take(pad_len(b.len()) - b.len()));
+    v
+}
+
+pub fn own_representable(m: &J) -> bool {
+    let utf = |k: &str| std::str::from_utf8(&jbytes(&m[k])).is_ok();
+    if !utf("chain") || jbytes(&m["tokenId"]).len() != 32 {
+        return false;
+    }
+    if m["inner"] == json!("transfer") {
+        let a = jbytes(&m["amount"]);
+        a.len() == 16 && a[0] <= 127
+    } else {
+        utf("name") && utf("symbol") && m["decimals"].as_u64().map(|d| d <= 255).unwrap_or(false)
+    }
+}
+
+pub fn own_encode_inner(m: &J) -> Vec<u8> {
+    let mut v = vec![];
+    if m["inner"] == json!("transfer") {
+        let (src, dst, data) = (jbytes(&m["src"]), jbytes(&m["dst"]), jbytes(&m["data"]));
+        let o1 = 192;
+        let o2 = o1 + 32 + pad_len(src.len());
+        let o3 = o2 + 32 + pad_len(dst.len());
+        v.extend(word(0));
+        v.extend(jbytes(&m["tokenId"]));
+        v.extend(word(o1));
+        v.extend(word(o2));
+        v.extend(vec![0u8; 16]);
+        v.extend(jbytes(&m["amount"]));
+        v.extend(word(o3));
+        v.extend(enc_bytes(&src));
+        v.extend(enc_bytes(&dst));
+        v.extend(enc_bytes(&data));
+    } else {
+        let (name, symbol, minter) = (jbytes(&m["name"]), jbytes(&m["symbol"]), jbytes(&m["minter"]));
+        let o1 = 192;
+        let o2 = o1 + 32 + pad_len(name.len());
+        let o3 = o2 + 32 + pad_len(symbol.len());
+        v.extend(word(1));
+        v.extend(jbytes(&m["tokenId"]));
+        v.extend(word(o1));
+        v.extend(word(o2));
+        v.extend(word(m["decimals"].as_u64().unwrap() as usize));
+        v.extend(word(o3));
+        v.extend(enc_bytes(&name));
+        v.extend(enc_bytes(&symbol));
+        v.extend(enc_bytes(&minter));
+    }
+    v
+}
+
+pub fn own_encode(m: &J) -> Vec<u8> {
+    let chain = jbytes(&m["chain"]);
+    let inner = own_encode_inner(m);
+    let mut v = word(if m["outer"] == json!("send") { 3 } else { 4 });
+    v.extend(word(96));
+    v.extend(word(96 + 32 + pad_len(chain.len())));
+    v.extend(enc_bytes(&chain));
+    v.extend(enc_bytes(&inner));
+    v
+}
+
+fn small_word(b: &[u8], off: usize) -> Option<usize> {
+    if off + 32 > b.len() || b[off..off + 28].iter().any(|x| *x != 0) || b[off + 28] > 127 {
+        return None;
+    }
+    Some(u32::from_be_bytes([b[off + 28], b[off + 29], b[off + 30], b[off + 31]]) as usize)
+}
+fn dyn_at(b: &[u8], off: usize) -> Option<Vec<u8>> {
+    let len = small_word(b, off)?;
+    if off + 32 + len > b.len() {
+        return None;
+    }
+    Some(b[off + 32..off + 32 + len].to_vec())
+}
+
+fn own_parse_inner(b: &[u8]) -> Option<J> {
+    if b.len() < 192 {
+        return None;
+    }
+    let t = small_word(b, 0)?;
+    if t > 1 {
+        return None;
+    }
+    let (o1, o2, o3) = (small_word(b, 64)?, small_word(b, 96)?, small_word(b, 160)?);
+    let (d1, d2, d3) = (dyn_at(b, o1)?, dyn_at(b, o2)?, dyn_at(b, o3)?);
+    let tid = to_jbytes(&b[32..64]);
+    if t == 0 {
+        if b[128..144].iter().any(|x| *x != 0) {
+            return None;
+        }
+        Some(json!({"inner": "transfer", "tokenId": tid, "src": to_jbytes(&d1), "dst": to_jbytes(&d2), "amount": to_jbytes(&b[144..160]), "data": to_jbytes(&d3)}))
+    } else {
+        let dec = small_word(b, 128)?;
+        if dec > 255 {
+            return None;
+        }
+        Some(json!({"inner": "deploy", "tokenId": tid, "name": to_jbytes(&d1), "symbol": to_jbytes(&d2), "decimals": dec, "minter": to_jbytes(&d3)}))
+    }
+}
+
+/// canonical decode: Some(message) iff the bytes are exactly the encoding of a representable message
+pub fn own_decode(b: &[u8]) -> Option<J> {
+    if b.len() < 96 {
+        return None;
+    }
+    let t = small_word(b, 0)?;
+    if t != 3 && t != 4 {
+        return None;
+    }
+    let (o1, o2) = (small_word(b, 32)?, small_word(b, 64)?);
+    let chain = dyn_at(b, o1)?;
+    let inner = dyn_at(b, o2)?;
+    let mut m = own_parse_inner(&inner)?;
+    m["outer"] = json!(if t == 3 { "send" } else { "recv" });
+    m["chain"] = to_jbytes(&chain);
+    if own_representable(&m) && own_encode(&m) == b {
+        Some(m)
+    } else {
+        None
+    }
+}
+
+/// the same catalogue actions as AbiBinder, executed against the harness's own codec
+pub struct AbiOwnBinder {
+    pub inst: J,
+}
+impl AbiOwnBinder {
+    pub fn new(inst: &J, _init: &J) -> AbiOwnBinder {
+        AbiOwnBinder { inst: inst.clone() }
+    }
+    pub fn exec(&mut self, act: &J) -> Obs {
+        let ok = |ret: J| Obs { ok: true, ret, ev: vec![], err: String::new() };
+        let rej = || Obs { ok: false, ret: json!("none"), ev: vec![], err: "own".into() };
+        match act["name"].as_str().unwrap() {
+            "Encode" => {
+                let i = act["msg"].as_u64().unwrap() as usize - 1;
+                let m = &self.inst["Msgs"][i];
+                if !own_representable(m) {
+                    return rej();
+                }
+                ok(if own_encode(m) == jbytes(&self.inst["Enc"][i]) { json!("enc_ok") } else { json!("enc_mismatch") })
+            }
+            "Decode" => {
+                let i = act["msg"].as_u64().unwrap() as usize - 1;
+                match own_decode(&jbytes(&self.inst["Enc"][i])) {
+                    Some(m) => ok(if m == self.inst["Msgs"][i] { json!("dec_ok") } else { json!({"dec_mismatch": m}) }),
+                    None => rej(),
+                }
+            }
+            "DecodeMut" => {
+                let i = act["base"].as_u64().unwrap() as usize - 1;
+                match own_decode(&apply_mut(&jbytes(&self.inst["Enc"][i]), &act["mut"])) {
+                    Some(m) => ok(m),
+                    None => rej(),
+                }
+            }
+            n => panic!("AbiOwn: unknown action {n}"),
+        }
+    }
+    pub fn project(&mut self) -> J {
+        json!({"s": "abi"})
+    }
+}
